@@ -49,7 +49,7 @@ META = {
 }
 
 MANIFEST = {
-    'level_text': 'Proof (deductive) over symbolic text: truncate_basename, mangle_file_for_iso9660 and mangle_dir_for_iso9660 return legal identifiers for the level (d-characters, length limits, 8.3 at level 1, not both parts empty) and leave already legal names unchanged; level 4 only cuts at the last dot. One defect found and repaired (K28 upper-casing after truncation), one recorded as known finding (K29 trailing dot).',
+    'level_text': 'Proof (deductive) over symbolic text: truncate_basename, mangle_file_for_iso9660 and mangle_dir_for_iso9660 return legal identifiers for the level (d-characters, length limits, 8.3 at level 1, not both parts empty) and leave already legal names unchanged; level 4 replaces the version separator and cuts at the last dot; a lookup by Rock Ridge name finds exactly the entry or reports it missing. Three defects found and repaired (K28 upper-casing after truncation, K30 IndexError for a missing name sorting last, K51 level-4 names with semicolons), three recorded as known findings (K29 trailing dot, K52 up to 33 characters at levels 2-3, K53 long extensions folded into the name).',
     'level_note': 'Trusted: pyvc text model (ASCII exact, five non-ASCII class representatives; class table validated exhaustively each run), z3. Name lengths are enumerated (short) families; facade/tool call sites are not under contract.',
     'design_ref': 'DESIGN.md section 4 C18',
 }
